@@ -314,6 +314,38 @@ pub fn run() {
                 }
                 None => "bad-op".to_string(),
             },
+            // wait (bounded) until node i has applied what the other live nodes have applied: raft's own metrics
+            // (GET /nacos/v1/raft/metrics, `last_applied`), asked again and again - instead of a fixed settling time
+            ["caughtup", i, ms] => match idx(i, &nodes) {
+                Some(i) => {
+                    let applied = |port: u16| -> Option<u64> {
+                        match http(port, "GET", "/nacos/v1/raft/metrics", 3000) {
+                            Some((200, b)) => serde_json::from_str::<serde_json::Value>(&b).ok().and_then(|v| v["last_applied"].as_u64()),
+                            _ => None,
+                        }
+                    };
+                    let deadline = std::time::Instant::now() + Duration::from_millis(ms.parse().unwrap_or(30000));
+                    let mut last = (None, 0u64);
+                    let mut r = String::new();
+                    while std::time::Instant::now() < deadline {
+                        let target = nodes.iter().enumerate().filter(|(j, n)| *j != i && n.alive()).filter_map(|(_, n)| applied(n.http)).max().unwrap_or(0);
+                        let mine = if nodes[i].alive() { applied(nodes[i].http) } else { None };
+                        last = (mine, target);
+                        if let Some(m) = mine {
+                            if target > 0 && m >= target {
+                                r = "caughtup ok".to_string();
+                                break;
+                            }
+                        }
+                        std::thread::sleep(Duration::from_millis(300));
+                    }
+                    if r.is_empty() {
+                        r = format!("caughtup behind mine={} others={}", last.0.map(|x| x.to_string()).unwrap_or("-".to_string()), last.1);
+                    }
+                    r
+                }
+                None => "bad-op".to_string(),
+            },
             ["settle", ms] => {
                 std::thread::sleep(Duration::from_millis(ms.parse().unwrap_or(1000)));
                 "ok".to_string()
